@@ -13,6 +13,7 @@ import itertools
 import weakref
 
 from mc.core import CaseResult, Failure, HarnessError
+from mc import idadv
 
 PROPERTY = "C14"
 LEVEL = "model_checking"
@@ -60,7 +61,25 @@ def cases(tier, seed):
         for final_sweep in (True, False):
             for suf in CORE_SUFFIXES:
                 out.append((pre, final_sweep, suf))
+    # the same histories when the allocator hands the identity of every dead instance to the next instance born
+    # (mc/idadv.py): wherever an instance is born after another one died without a sweep in between
+    for pre, final_sweep, suf in list(out):
+        if len(pre) <= d and reuse_possible(pre, final_sweep) and (suf in CORE_SUFFIXES or len(pre) < d):
+            out.append((pre, final_sweep, suf, "recycled"))
     return out
+
+
+def reuse_possible(pre, final_sweep):
+    """some instance is born after another one died and before the next sweep"""
+    dead_unswept = False
+    for op in pre:
+        if op.startswith("drop"):
+            dead_unswept = True
+        elif op == "sweep":
+            dead_unswept = False
+        elif op.startswith("new") and dead_unswept:
+            return True
+    return bool(pre) and any(op.startswith("new") for op in pre) and not final_sweep
 
 
 def admissible(pre):
@@ -168,7 +187,42 @@ def reference_for(suf):
     return _REF[suf]
 
 
+_ADV = [None]
+_HOOKED = [False]
+
+
+def hook_births():
+    """stamp the birth of every Symbol instance for the identity adversary: krrood registers an instance in
+    Symbol.__new__ through the module-level function update_cache, which the harness wraps (no source change)"""
+    if _HOOKED[0]:
+        return
+    _HOOKED[0] = True
+    from krrood.entity_query_language import predicate as P
+    orig = P.update_cache
+
+    def update_cache(instance):
+        if _ADV[0] is not None:
+            _ADV[0].born(instance)
+        return orig(instance)
+    P.update_cache = update_cache
+
+
 def run_case(case):
+    if len(case) == 4:
+        hook_births()
+        _ADV[0] = idadv.IdAdversary(recycle=True)
+        try:
+            with idadv.installed(_ADV[0]):
+                res = run_case_inner(case[:3], " [identities of dead instances are reused at once]")
+            if _ADV[0].recycled:
+                res.features = list(res.features or ()) + ["identity-recycled"]
+            return res
+        finally:
+            _ADV[0] = None
+    return run_case_inner(case, "")
+
+
+def run_case_inner(case, note):
     from krrood.entity_query_language.symbol_graph import SymbolGraph
     pre, final_sweep, suf = case
     res = CaseResult()
@@ -229,7 +283,7 @@ def run_case(case):
             states.append((len(SymbolGraph().wrapped_instances), len(list(SymbolGraph().relations())), op))
     except Exception as e:
         # every prefix operation is a legal assertion on live objects; the same operation succeeds on a fresh graph
-        res.failures.append(Failure("crash", f"prefix {pre}: operation #{n} ({op}) raised {type(e).__name__}: {e}"))
+        res.failures.append(Failure("crash", f"prefix {pre}{note}: operation #{n} ({op}) raised {type(e).__name__}: {e}"))
         ps = cs = es = None
         live.clear()
         gc.freeze()
@@ -250,7 +304,7 @@ def run_case(case):
         objs, asserted = run_suffix(suf)
         rel, fld = facts_about(objs)
     except Exception as e:
-        res.failures.append(Failure("crash", f"prefix {pre} (final sweep {final_sweep}) then suffix {suf}: {type(e).__name__}: {e}"))
+        res.failures.append(Failure("crash", f"prefix {pre} (final sweep {final_sweep}){note} then suffix {suf}: {type(e).__name__}: {e}"))
         gc.freeze()
         return res
     states.append((len(SymbolGraph().wrapped_instances), "suffix"))
@@ -261,11 +315,11 @@ def run_case(case):
         res.nontrivial_key = case
     if rel != ref_rel:
         res.failures.append(Failure("relations-differ-from-fresh-graph",
-                                    f"prefix {pre} (final sweep {final_sweep}) then suffix {suf}: graph lacks "
+                                    f"prefix {pre} (final sweep {final_sweep}){note} then suffix {suf}: graph lacks "
                                     f"{sorted(ref_rel - rel)}, has extra {sorted(rel - ref_rel)}"))
     elif fld != ref_fld:
         res.failures.append(Failure("fields-differ-from-fresh-graph",
-                                    f"prefix {pre} (final sweep {final_sweep}) then suffix {suf}: fields lack "
+                                    f"prefix {pre} (final sweep {final_sweep}){note} then suffix {suf}: fields lack "
                                     f"{sorted(ref_fld - fld)}, extra {sorted(fld - ref_fld)}"))
     elif swept_related and len(pre) >= 3:
         res.sample = {"prefix": list(pre), "final_sweep": final_sweep, "suffix": [suf[0], list(suf[1])],
@@ -279,6 +333,8 @@ def finish(run):
     if run.exhaustive and not run.failures:
         if not run.features.get("swept-related"):
             raise HarnessError("vacuous: no prefix swept a related instance")
+        if not run.features.get("identity-recycled"):
+            raise HarnessError("vacuous: the identity adversary never recycled an identity")
 
 
 def classify(case, failure):
